@@ -311,6 +311,51 @@ def run_r6(ctx, rule):
     rule.check(ok, "advance_unchecked/set_len", "advance_unchecked(len) sets the length to buf.len() + len", fa_.loc())
 
 
+def run_r8(ctx, rule):
+    """`check_io_error` and `Write::flush` move the parked error out; whoever calls them owns the only copy.  Every call
+    site in the workspace must do something with the answer (`?`, return it, match it, unwrap it): an answer that is
+    assigned and never looked at (`let _ = self.flush()`) makes the failure disappear - it is reported zero times and
+    the sink is driven again afterwards."""
+    from .c01 import uses_of
+    facts = ctx.facts
+    takers = (DW + "check_io_error", "<" + DWT + " as std::io::Write>::flush")
+    n = 0
+    for f, bb, t in util.calls_to(facts, lambda x: x in takers):
+        if f.crate in ("ext", "promoted"):
+            continue
+        n += 1
+        d = t["dest"]
+        key = "%s/%s-answer-used" % (norm(f.id), norm(util.cname(t)).rsplit("::", 1)[-1])
+        if d["p"]:
+            rule.ok("answer stored into a place of the caller (%s)" % short(f.id), f.loc(bb))
+            continue
+        used = d["l"] == 0 or util.result_propagated(facts, f, bb) or bool(uses_of(f, d["l"]))
+        # a writer the function itself built on a `Vec<u8>` has a sink that cannot fail: there is no error to lose
+        for b2, t2 in f.calls():
+            if norm(util.cname(t2)) == DW + "from_write" and t2["args"]:
+                p2 = t2["args"][0].get("mv") or t2["args"][0].get("cp")
+                if p2 is not None and f.locals[p2["l"]].get("s", "").replace(" ", "") in ("&mutalloc::vec::Vec<u8>", "&mutstd::vec::Vec<u8>"):
+                    used = True
+        if not used:
+            # discriminant reads / switches on the answer
+            for b in f.blocks:
+                if b["cleanup"]:
+                    continue
+                for s_ in b["stmts"]:
+                    if s_["k"] == "assign" and s_["rv"]["k"] == "discr" and s_["rv"]["p"]["l"] == d["l"]:
+                        used = True
+        rule.check(used, key, "the answer of %s in %s is handed on or examined, not dropped (it carries the only copy of the sink's error)" % (short(util.cname(t)), short(f.id)), f.loc(bb))
+    if n < 2:
+        rule.bad("takers/sites", "only %d call sites of check_io_error / Write::flush on the writer (2 confirmed by hand: Write::flush itself, Display for btor2::Line)" % n, kind="anchor-missing")
+    # the silent flush is for the places that cannot report: the cold write path, Write::flush (which reports right after), drop
+    allowed = (DW + "write_all_defer_err_cold", "<" + DWT + " as std::io::Write>::flush", "<" + DWT + " as core::ops::drop::Drop>::drop", DW + "flush_defer_err")
+    for f, bb, t in util.calls_to(facts, lambda x: x == DW + "flush_defer_err"):
+        if f.crate in ("ext", "promoted"):
+            continue
+        nid = norm(f.id).split("::{closure")[0]
+        rule.check(nid in allowed, "%s/calls-flush_defer_err" % nid, "the buffer is flushed from the cold write path, Write::flush and drop only (%s)" % short(nid), f.loc(bb))
+
+
 def run(ctx):
     r1 = ctx.rule("C11-R1", "the sink receives only the whole buffer (flush) or the caller's oversized slice (direct), through write_all, only while no error is parked, and its error is parked", floor=5)
     run_r1(ctx, r1)
@@ -324,6 +369,8 @@ def run(ctx):
     run_r5(ctx, r5)
     r6 = ctx.rule("C11-R6", "integer fast path: pointer only with reserved space, advance by the written length, cold arm through the buffered path", floor=6)
     run_r6(ctx, r6)
+    r8 = ctx.rule("C11-R8", "the answer of every call that takes the parked error out (check_io_error, Write::flush) is handed on or examined, never dropped; silent flushes only from the cold write path, Write::flush and drop", floor=5)
+    run_r8(ctx, r8)
     from .c14 import run_r3 as c14_r3
     r7 = ctx.rule("C11-R7", "the sink calls are bracketed by the panicked flag (shared with C14-R3)", floor=2)
     c14_r3(ctx, r7)
